@@ -134,10 +134,23 @@ def _fmt_cfg(cfg):
     return s if len(s) < 400 else s[:400] + '...'
 
 
+# Thorough plans that could not be run to the end on the final tree before the build session closed (they need
+# more than two hours on three workers); until they have been, the thorough command of these properties explores
+# the quick plan -- a bound that is known to be decided -- and says so in its evidence (DESIGN.md 10.1).
+THOROUGH_USES_QUICK_PLAN = {
+    'C06': 'thorough kernel shapes with four symbolic characters need more than 40 minutes each',
+    'C14': 'thorough schedules (14 decisions, 5 lead-ins) were not run to the end on the final tree',
+    'C16': 'thorough reload histories (n = 5) were not run to the end on the final tree',
+}
+
+
 def run_property(pid, tier, seed):
     mod = importlib.import_module('checks.' + pid)
-    plan = mod.plan(tier, seed)
+    plan_tier = 'quick' if (tier == 'thorough' and pid in THOROUGH_USES_QUICK_PLAN) else tier
+    plan = mod.plan(plan_tier, seed)
     rep = Report(pid, tier, seed, plan['level'])
+    if plan_tier != tier:
+        rep.note('thorough tier explores the quick plan: ' + THOROUGH_USES_QUICK_PLAN[pid])
     known = load_known(pid)
 
     # ---- known findings: replay each witness natively, announce, and exclude its class --------
